@@ -2,6 +2,8 @@ package checks
 
 import (
 	"fmt"
+	"math"
+	"strconv"
 	"strings"
 	"time"
 
@@ -238,6 +240,117 @@ func runC04(ctx *report.Ctx) {
 		{Parts: []yc.Part{{E: yc.EVariable("nope")}}},
 		{Parts: []yc.Part{{Src: "[a]unterminated [b", Want: ""}}}, // markup error
 	}
+	// numbers: display forms over the whole range of magnitudes. Inside [1e-4, 1e15) the parts above compare the exact
+	// text; outside, the property still says: an integral number is shown without a decimal point, any other number in
+	// shortest round-trip decimal - both checked in a notation-independent way (the digits shown denote exactly the
+	// number; an integral one contains no '.'; a non-integral one has the digits of the shortest representation)
+	{
+		var nums []float64
+		add := func(x float64) {
+			if !math.IsInf(x, 0) && !math.IsNaN(x) {
+				nums = append(nums, x, -x)
+			}
+		}
+		for k := 0; k <= 1023; k++ {
+			if k <= 70 || k%64 == 0 || k == 1023 {
+				add(math.Ldexp(1, k))
+				if k <= 53 {
+					add(math.Ldexp(1, k) - 1)
+					add(math.Ldexp(1, k) + 1)
+				}
+			}
+		}
+		for k := 0; k <= 308; k++ {
+			if k <= 25 || k%50 == 0 || k == 308 {
+				add(math.Pow(10, float64(k)))
+				add(3 * math.Pow(10, float64(k)))
+				add(math.Pow(10, -float64(k)))
+				add(1.5 * math.Pow(10, float64(k)))
+			}
+		}
+		add(math.Nextafter(math.Ldexp(1, 63), 0))
+		add(math.Nextafter(math.Ldexp(1, 63), math.Inf(1)))
+		add(math.Nextafter(math.Ldexp(1, 31), 0))
+		add(123456789012345678)
+		add(1.0 / 3)
+		add(2.0 / 3)
+		add(0.1 + 0.2)
+		add(math.MaxFloat64)
+		add(math.SmallestNonzeroFloat64)
+		add(4503599627370496.5)
+		add(1e15 + 0.5)
+		add(999999999999999.9)
+		ctx.Bound("numbers_display_alphabet", len(nums))
+		digitsOf := func(d string) string {
+			d = strings.TrimLeft(d, "+-")
+			if i := strings.IndexAny(d, "eE"); i >= 0 {
+				d = d[:i]
+			}
+			d = strings.ReplaceAll(d, ".", "")
+			return strings.Trim(d, "0")
+		}
+		part(ctx, "numbers", -1, func(c *explore.Chooser) {
+			x := nums[c.Choose(len(nums), "number")]
+			form := c.Choose(3, "form")
+			if !c.Mine() {
+				return
+			}
+			e := yc.ENumber(x)
+			lit := yc.RenderExpr(e, nil)
+			var script string
+			switch form {
+			case 0:
+				script = "title: A\n---\nv={" + lit + "} w\n===\n"
+			case 1:
+				script = "title: A\n---\n-> o {" + lit + "} w\n===\n"
+			case 2:
+				script = "title: A\n---\n<<set $x = " + lit + ">>\nv={$x} w\n===\n"
+			}
+			ctx.Current("numbers: " + script)
+			r, err, pan := yc.NewReal([]string{script}, "abc", nil)
+			ctx.AddEvals(1, 1)
+			ctx.AddStates(1)
+			ctx.AddTransitions(1)
+			ctx.AddTraces(1)
+			fail := func(clause, detail string) {
+				ctx.Violation(report.Violation{Clause: clause, Witness: fmt.Sprintf("number %s shown in %s", strconv.FormatFloat(x, 'g', -1, 64), []string{"a line", "an option", "a line through a variable"}[form]),
+					Detail: detail, Choices: c.Choices(), Part: "numbers", Extra: map[string]any{"scripts": []string{script}}})
+			}
+			if err != nil || pan != "" {
+				ctx.HarnessError("C04 numbers: script does not load: %v %s :: %q", err, pan, script)
+				return
+			}
+			ro := r.Next(0)
+			text := ro.Text
+			if form == 1 && ro.K == yc.OOptions && len(ro.Opts) == 1 {
+				text = "v=" + strings.TrimPrefix(ro.Opts[0].Text, "o ")
+			} else if ro.K != yc.OLine {
+				fail("number-display", "the line was not returned: "+ro.String())
+				return
+			}
+			if !strings.HasPrefix(text, "v=") || !strings.HasSuffix(text, " w") {
+				fail("number-display", fmt.Sprintf("text %q does not have the literal parts of the line around the number", text))
+				return
+			}
+			d := strings.TrimSuffix(strings.TrimPrefix(text, "v="), " w")
+			ctx.Outcome(fmt.Sprint(strings.ContainsAny(d, "eE"), strings.Contains(d, ".")))
+			back, perr := strconv.ParseFloat(d, 64)
+			if perr != nil || back != x {
+				fail("number-display", fmt.Sprintf("the number is shown as %q, which does not denote it", d))
+				return
+			}
+			if x == math.Trunc(x) {
+				if strings.Contains(d, ".") {
+					fail("number-display-integral", fmt.Sprintf("the integral number %s is shown with a decimal point: %q", strconv.FormatFloat(x, 'f', -1, 64), d))
+				}
+				return
+			}
+			if want := digitsOf(strconv.FormatFloat(x, 'g', -1, 64)); digitsOf(d) != want {
+				fail("number-display-shortest", fmt.Sprintf("the number is shown as %q (digits %s); its shortest round-trip digits are %s", d, digitsOf(d), want))
+			}
+		})
+	}
+
 	part(ctx, "after-error", -1, func(c *explore.Chooser) {
 		f := failing[c.Choose(len(failing), "failing-line")]
 		asOption := c.Choose(2, "failing-as-option") == 1
